@@ -88,60 +88,35 @@ func (e *Env) lookupVar(name string) (Value, bool) {
 			}
 		}
 	}
-	// register local: latest definition that dominates the evaluation point
-	if vs, ok := fr.names[name]; ok {
+	// register local: the value bound by the reference (definition or use: go/ssa records both) that
+	// most closely dominates the evaluation point. The position that counts is the reference's, not the
+	// one where the value was computed: `finalOff = off` binds the name finalOff to the value of off
+	// from that statement on, not from the loop header where off's phi lives (session 4: the invariant
+	// `finalOff == 0` of dir.AddNameDir had silently been read as `off == 0`).
+	{
+		// candidates: references (value valid from the reference on) and merge points of the variable
+		// (value valid from the start of the join block on)
 		var best ssa.Value
-		var bestConst ssa.Value
-		for _, v := range vs {
-			if _, isConst := v.(*ssa.Const); isConst {
-				bestConst = v
-				continue
-			}
-			if _, computed := fr.vals[v]; !computed {
-				continue
-			}
-			in, isInstr := v.(ssa.Instruction)
-			if !isInstr || in.Block() == nil {
-				// parameters and free variables
-				if best == nil {
-					best = v
+		var bblk *ssa.BasicBlock
+		bidx := -1
+		consider := func(v ssa.Value, blk *ssa.BasicBlock, idx int) {
+			if _, isConst := v.(*ssa.Const); !isConst {
+				if _, computed := fr.vals[v]; !computed {
+					return
 				}
-				continue
 			}
-			if e.at != nil && !in.Block().Dominates(e.at) {
-				continue
+			if e.at != nil && !blk.Dominates(e.at) {
+				return
 			}
-			if best == nil {
-				best = v
-				continue
-			}
-			bi, ok1 := best.(ssa.Instruction)
-			if !ok1 || bi.Block() == nil {
-				best = v
-				continue
-			}
-			if bi.Block() != in.Block() && bi.Block().Dominates(in.Block()) {
-				best = v
-			} else if bi.Block() == in.Block() && instrIndex(in) > instrIndex(bi) {
-				best = v
+			if best == nil || (bblk != blk && bblk.Dominates(blk)) || (bblk == blk && idx > bidx) {
+				best, bblk, bidx = v, blk, idx
 			}
 		}
-		if best == nil {
-			best = bestConst
-			// several constants are bound to this name: take the binding whose
-			// position dominates the evaluation point most closely
-			var bd *ssa.DebugRef
-			for _, d := range fr.constRefs[name] {
-				if e.at != nil && !d.Block().Dominates(e.at) {
-					continue
-				}
-				if bd == nil || (bd.Block() != d.Block() && bd.Block().Dominates(d.Block())) || (bd.Block() == d.Block() && instrIndex(d) > instrIndex(bd)) {
-					bd = d
-				}
-			}
-			if bd != nil {
-				best = bd.X
-			}
+		for _, d := range fr.refs[name] {
+			consider(d.X, d.Block(), instrIndex(d))
+		}
+		for _, ph := range fr.phis[name] {
+			consider(ph, ph.Block(), instrIndex(ph))
 		}
 		if best != nil {
 			return e.x.value(fr, best), true
